@@ -404,10 +404,18 @@ func (w *worker) runTrace(ctx context.Context, tp *traceplan) ([]event, error) {
 	var lastKinds []string
 	for si := 0; si < len(tp.Steps); si++ {
 		st := &tp.Steps[si]
-		if st.Op == "damage" && st.Skippable && si+1 < len(tp.Steps) && tp.Steps[si+1].Op == "read" && gate.skip(st.Kinds) {
-			evs = append(evs, event{"ev": "Skipped", "kinds": st.Kinds})
-			si++
-			continue
+		if st.Op == "damage" && st.Skippable {
+			span := st.Span
+			if span <= 0 {
+				span = 1
+			}
+			if si+span <= len(tp.Steps)-1 {
+				if gate.skip(st.Kinds) {
+					evs = append(evs, event{"ev": "Skipped", "kinds": st.Kinds})
+					si += span
+					continue
+				}
+			}
 		}
 		switch st.Op {
 		case "write":
